@@ -109,6 +109,13 @@ def intd(s: str) -> int:
         return 0
 
 
+def prompt_of(k: int, letter: str) -> str:
+    """the caller's text (`prompt <k>` lines): default / empty / full of completion markers / long / imitating the
+    loops' own messages; the Lean driver builds the same strings (promptOf)"""
+    return {1: "", 2: "is it DONE? SUCCESS! <7>", 3: "<7>" + "z" * 3000,
+            4: "Previous output was invalid. Error: <7>\nTool results:\nTool 'x' returned: <8>"}.get(k, letter + "<7>")
+
+
 def hint_tok(h) -> str:
     """hints of the library's default summarizer as tokens: a<n> = 'attempted n steps', k = 'stuck repeating', e = errors"""
     if isinstance(h, str):
@@ -472,6 +479,10 @@ class C18(Prop):
                     lines.append(q.pop(0))
             else:
                 lines = [self._gen_heal(rng)] + self._gen_swarm(rng) + [self._gen_tools(rng)]
+            if rng.random() < 0.15:       # the caller's text: empty / full of marker words / long / imitating the loops' messages
+                lines = list(lines)
+                for _ in range(rng.choice([1, 1, 2])):
+                    lines.insert(rng.randint(0, max(0, len(lines) - 1)), f"prompt {rng.choice([1, 2, 2, 3, 4, 0])}")
             yield {"lines": lines, "note": "random " + kind}
 
     def exhaustive(self, tier):
@@ -637,17 +648,18 @@ class C18(Prop):
             return "bad-op"
         return "ok"
 
-    def _heal(self, t):
+    def _heal(self, t, st=None):
         loop, box = self._new_loop(lim(t[1]), flo(t[2]), t[3] == "real")
-        return self._heal_on(loop, box, script_of(t[4]), script_of(t[5]))
+        return self._heal_on(loop, box, script_of(t[4]), script_of(t[5]), (st or {}).get("pk", 0))
 
     def _hcall(self, st, t):
         if st.get("loop") is None:
             st["loop"], st["lbox"] = self._new_loop(3, 0.1, False)
-        return self._heal_on(st["loop"], st["lbox"], script_of(t[1]), script_of(t[2]))
+        return self._heal_on(st["loop"], st["lbox"], script_of(t[1]), script_of(t[2]), st.get("pk", 0))
 
-    def _heal_on(self, loop, box, gs, fs):
+    def _heal_on(self, loop, box, gs, fs, pk=0):
         real = box["real"]
+        the_prompt = prompt_of(pk, "P")
         calls = []
         prop = self
         box["stale"] = []
@@ -660,7 +672,7 @@ class C18(Prop):
                 i = len(calls)
                 if i >= CAP:
                     raise Runaway("generator")
-                rec = {"p": prompt == "P<7>", "ctx": error_context, "out": "x", "fold": "-", "raw": None, "f": None}
+                rec = {"p": prompt == the_prompt, "ctx": error_context, "out": "x", "fold": "-", "raw": None, "f": None}
                 calls.append(rec)
                 item = pick(gs, i, "g")
                 if item in "rR":          # the generator itself re-assigns the public limit of the loop that is calling it
@@ -691,7 +703,7 @@ class C18(Prop):
         res = None
         try:
             with contextlib.redirect_stdout(io.StringIO()):
-                res = loop.heal("P<7>")
+                res = loop.heal(the_prompt)
         except Exception as e:   # noqa
             exc = e
 
@@ -777,6 +789,7 @@ class C18(Prop):
             st["cfg"] = (3, 10)
         sw, box = st["swarm"], st["box"]
         prop = self
+        the_task = prompt_of(st.get("pk", 0), "T")
 
         class W(prop.rs.SimpleWorker):
             """a worker of the caller's own (the Worker protocol: id, memory, step) that is also everything the library's
@@ -834,7 +847,7 @@ class C18(Prop):
                 g = self.g
                 self.stepi += 1
                 self.g += 1
-                if task != "T<7>":
+                if task != the_task:
                     rec["task_ok"] = False
                 if item == "x":
                     rec["steps"].append(None)
@@ -879,7 +892,7 @@ class C18(Prop):
         exc = res = None
         try:
             with contextlib.redirect_stdout(io.StringIO()):
-                res = sw.supervise("T<7>")
+                res = sw.supervise(the_task)
         except Exception as e:   # noqa
             exc = e
 
@@ -946,7 +959,7 @@ class C18(Prop):
                 return LLMResponse("idle", "m", 1, 1.0), None
         return Idle()
 
-    def _tools(self, t, st=None):
+    def _tools(self, t, st=None, pk=0):
         """`tools …`: a fresh Nucleus; `ntools …` (st given): the live Nucleus of this case, whose provider attribute is
         re-assigned for the call and whose transcription_log keeps growing.  hasSchemas 2 / 3 = the REAL
         Mitochondria (with the scripted tool registered / with no tool at all) instead of the stub."""
@@ -1105,7 +1118,7 @@ class C18(Prop):
             kw_mi = dict(kw_mi, config=ProviderConfig(temperature=0.0, max_tokens=1 if salt else 4096, timeout_seconds=0.0,
                                                       system_prompt="stop after one round" if salt else None))
         try:
-            res = nuc.transcribe_with_tools("Q<7>", mito, auto_execute=ae, **kw_mi)
+            res = nuc.transcribe_with_tools(prompt_of(pk, "Q"), mito, auto_execute=ae, **kw_mi)
         except Exception as e:   # noqa
             exc = e
         log = "[" + ",".join(f"{view(x.prompt)}:{getattr(x.response, 'rid', '?')}" for x in nuc.transcription_log) + "]"
@@ -1377,8 +1390,11 @@ class C18(Prop):
             if len(t) == 2 and t[0] == "sel":
                 st = slots[1 if t[1] == "1" else 0]
                 o = "ok"
+            elif len(t) == 2 and t[0] == "prompt":
+                st["pk"] = intd(t[1]) if t[1].isdigit() else 0
+                o = "ok"
             elif len(t) == 6 and t[0] == "heal":
-                o, info = self._heal(t)
+                o, info = self._heal(t, st)
             elif len(t) == 4 and t[0] == "swarm":
                 st["swarm"], st["box"] = self._new_swarm(lim(t[1]), lim(t[2]), flo(t[3]))
                 # a limit that was not named: whatever the fresh object's public attribute says is in force
@@ -1388,9 +1404,9 @@ class C18(Prop):
             elif len(t) == 4 and t[0] == "supervise":
                 o, info = self._supervise(st, t)
             elif len(t) == 8 and t[0] == "tools":
-                o, info = self._tools(t)
+                o, info = self._tools(t, None, st.get("pk", 0))
             elif len(t) == 8 and t[0] == "ntools":
-                o, info = self._tools(t, st)
+                o, info = self._tools(t, st, st.get("pk", 0))
             elif t == ["nucleus"]:
                 st["nuc"] = self.nu.Nucleus(provider=self._idle_provider())
                 o = "ok"
